@@ -61,3 +61,111 @@ theorem narrowME_bound (M : Nat) (E : Int) :
 #guard narrowME (2^52 + 3 * 2^28) (-52) == (2^23 + 2, -23) -- tie, even above
 #guard narrowME 1 (-1074) == (0, -149)                     -- smallest subnormal double → 0
 end Covfie.C07
+
+/-! ## Bit-pattern layer (`narrowBits`, `widenBits`, `pack32` of `Model/Narrow.lean`)
+
+`narrowBits` decodes a finite binary64 pattern to `(M, E)` (`dec64`), rounds with `narrowME` and packs with `pack32`.
+The lemmas below say that packing is the inverse of the binary32 decoder `dec32` on every rounded magnitude that
+`narrowME` can produce (normal, subnormal, and the carry `M' = 2^24` into the next binade), so the half-quantum bound of
+`narrowME_bound` is a statement about the value that the produced bit pattern denotes. The agreement of `narrowBits` with
+`static_cast<float>(double)` itself is the correspondence obligation `narrow_hw`. -/
+namespace Covfie.C07
+
+/-- normal result: 24 significant bits -/
+theorem dec32_pack32_normal (M' : Nat) (E' : Int) (h1 : 2^23 ≤ M') (h2 : M' < 2^24) (h3 : -149 ≤ E')
+    (h4 : (E' + 149).toNat * 2^23 + M' < 0x7f800000) : dec32 (pack32 M' E') = (M', E') := by
+  obtain ⟨k, rfl⟩ : ∃ k : Nat, E' = (k : Int) - 149 := ⟨(E' + 149).toNat, by omega⟩
+  have hk : ((k : Int) - 149 + 149).toNat = k := by omega
+  rw [hk] at h4
+  unfold pack32 dec32
+  simp only [hk]
+  have hlt : ¬ (k * 2^23 + M' ≥ 0x7f800000) := by omega
+  simp only [hlt, if_false]
+  have e1 : (k * 2^23 + M') / 2^23 % 2^8 = k + 1 := by omega
+  have e2 : (k * 2^23 + M') % 2^23 = M' - 2^23 := by omega
+  rw [e1, e2]
+  have : ¬ (k + 1 = 0) := by omega
+  simp only [this, if_false]
+  refine Prod.ext ?_ ?_
+  · show 2^23 + (M' - 2^23) = M'; omega
+  · show ((k + 1 : Nat) : Int) - 150 = (k : Int) - 149; omega
+
+/-- subnormal result: fewer than 24 bits at the quantum 2^−149 -/
+theorem dec32_pack32_subnormal (M' : Nat) (h : M' < 2^23) : dec32 (pack32 M' (-149)) = (M', -149) := by
+  unfold pack32 dec32
+  have h0 : ((-149 : Int) + 149).toNat = 0 := by omega
+  simp only [h0, Nat.zero_mul, Nat.zero_add]
+  have hlt : ¬ (M' ≥ 0x7f800000) := by omega
+  simp only [hlt, if_false]
+  have e1 : M' / 2^23 % 2^8 = 0 := by omega
+  have e2 : M' % 2^23 = M' := by omega
+  simp [e1, e2]
+
+/-- rounding carried out of the significand (`M' = 2^24`): the packed pattern is the power of two of the next binade -/
+theorem dec32_pack32_carry (E' : Int) (h3 : -149 ≤ E') (h4 : (E' + 149).toNat * 2^23 + 2^24 < 0x7f800000) :
+    dec32 (pack32 (2^24) E') = (2^23, E' + 1) := by
+  obtain ⟨k, rfl⟩ : ∃ k : Nat, E' = (k : Int) - 149 := ⟨(E' + 149).toNat, by omega⟩
+  have hk : ((k : Int) - 149 + 149).toNat = k := by omega
+  rw [hk] at h4
+  unfold pack32 dec32
+  simp only [hk]
+  have hlt : ¬ (k * 2^23 + 2^24 ≥ 0x7f800000) := by omega
+  simp only [hlt, if_false]
+  have e1 : (k * 2^23 + 2^24) / 2^23 % 2^8 = k + 2 := by omega
+  have e2 : (k * 2^23 + 2^24) % 2^23 = 0 := by omega
+  rw [e1, e2]
+  have : ¬ (k + 2 = 0) := by omega
+  simp only [this, if_false]
+  refine Prod.ext ?_ ?_
+  · show 2^23 + 0 = 2^23; omega
+  · show ((k + 2 : Nat) : Int) - 150 = (k : Int) - 149 + 1; omega
+
+/-- anything at or beyond 2^128 packs to the infinity pattern -/
+theorem pack32_overflow (M' : Nat) (E' : Int) (h : (E' + 149).toNat * 2^23 + M' ≥ 0x7f800000) : pack32 M' E' = 0x7f800000 := by
+  unfold pack32; simp only [h, if_true]
+
+/-- on finite non-zero doubles `narrowBits` is: decode (`dec64`), round (`narrowME`, the function the accuracy theorems are
+    about), pack (`pack32`), sign bit carried over -/
+theorem narrowBits_finite (b : Nat) (he : b / 2^52 % 2^11 ≠ 2047) (hM : (dec64 b).1 ≠ 0) :
+    narrowBits b = (b / 2^63 % 2) * 2^31 + pack32 (narrowME (dec64 b).1 (dec64 b).2).1 (narrowME (dec64 b).1 (dec64 b).2).2 := by
+  unfold narrowBits
+  simp only [he, hM, if_false]
+
+/-- zeros (and nothing else among the finite doubles) keep only their sign -/
+theorem narrowBits_zero (b : Nat) (he : b / 2^52 % 2^11 ≠ 2047) (hM : (dec64 b).1 = 0) : narrowBits b = (b / 2^63 % 2) * 2^31 := by
+  unfold narrowBits
+  simp only [he, hM, if_false, if_true]
+
+-- evaluation tests of the bit-pattern functions (the same values are in the harness' boundary set)
+#guard narrowBits 0x3ff0000000000001 == 0x3f800000                  -- 1 + 2^-52 → 1.0
+#guard narrowBits 0x3ff0000010000000 == 0x3f800000                  -- tie → even (down)
+#guard narrowBits 0x3ff0000030000000 == 0x3f800002                  -- tie → even (up)
+#guard narrowBits 0x3ff0000010000001 == 0x3f800001                  -- just above the tie
+#guard narrowBits 0x3fffffffffffffff == 0x40000000                  -- carry into the next binade
+#guard narrowBits 0x47efffffefffffff == 0x7f7fffff                  -- just below the overflow threshold → FLT_MAX
+#guard narrowBits 0x47effffff0000000 == 0x7f800000                  -- FLT_MAX + half ulp (tie) → even → infinity
+#guard narrowBits 0xc7effffff0000000 == 0xff800000
+#guard narrowBits 0x36a0000000000000 == 0x00000001                  -- 2^-149
+#guard narrowBits 0x3690000000000000 == 0                           -- 2^-150: tie → even → 0
+#guard narrowBits 0x3690000000000001 == 0x00000001                  -- just above 2^-150
+#guard narrowBits 0x36a8000000000000 == 0x00000002                  -- 1.5·2^-149: tie → even (up)
+#guard narrowBits 0x380fffffffffffff == 0x00800000                  -- largest subnormal-range double rounds up to FLT_MIN
+#guard narrowBits 0x8000000000000000 == 0x80000000                  -- −0
+#guard narrowBits 0x0000000000000001 == 0                           -- double subnormal → +0
+#guard narrowBits 0x800fffffffffffff == 0x80000000                  -- negative double subnormal → −0
+#guard narrowBits 0x7ff0000000000000 == 0x7f800000
+#guard narrowBits 0x7ff0000000000001 == 0x7fc00000                  -- signalling NaN, payload lost → quiet NaN
+#guard narrowBits 0xfff4000000000001 == 0xffe00000                  -- payload's top bits kept, quieted
+#guard widenBits 0x3f800001 == 0x3ff0000020000000
+#guard widenBits 0x00000001 == 0x36a0000000000000                   -- smallest float subnormal, normalised
+#guard widenBits 0x007fffff == 0x380fffffc0000000
+#guard widenBits 0x80000000 == 0x8000000000000000
+#guard widenBits 0x7f800000 == 0x7ff0000000000000
+#guard widenBits 0x7fa00001 == 0x7ffc000020000000                   -- signalling NaN → quieted, payload kept
+#guard narrowBits (widenBits 0x7f7fffff) == 0x7f7fffff
+#guard narrowBits (widenBits 0x00000001) == 0x00000001
+#guard (List.range 2000).all fun i => narrowBits (widenBits (i * 1048573 % 0x7f800000)) == i * 1048573 % 0x7f800000
+#guard Covfie.IO.convDat 4 (.thin (.sized [2, 1] (.array 8 2 [0x3ff0000010000001, 0x3690000000000000])))
+      == .thin (.sized [2, 1] (.array 4 2 [0x3f800001, 0]))
+#guard Covfie.IO.convDat 8 (.array 4 1 [0x00000001]) == .array 8 1 [0x36a0000000000000]
+end Covfie.C07
